@@ -5,6 +5,7 @@ import (
 	"bufio"
 	"fmt"
 	"io"
+	"math/rand"
 	"os/exec"
 	"strconv"
 	"strings"
@@ -130,6 +131,7 @@ type Stats struct {
 	Time                time.Duration
 	CrossQueries        int
 	CrossDisagree       int
+	CrossNoVerdict      int
 	CrossDetail         []string
 	MaxQuery            time.Duration
 }
@@ -143,7 +145,11 @@ type Solver struct {
 	transcript []string // declarations/definitions/asserts since last reset
 	St         Stats
 	cross      []*proc // extra solvers for cross checking
-	CrossEvery int     // cross-check every n-th query (0 = never)
+	CrossEvery int     // unused (kept for compatibility)
+	// reservoir sample of decided queries, cross-checked after the run by the other solvers (one-shot processes)
+	SampleK   int
+	Samples   []SampledQuery
+	sampleRng *rand.Rand
 	nq         int
 	Log        io.Writer
 }
@@ -162,13 +168,13 @@ func New(timeoutMS int) (*Solver, error) {
 }
 
 // EnableCross starts z3-new and cvc5 for cross-checking.
-func (s *Solver) EnableCross(every int) {
+func (s *Solver) EnableCross(every int, timeoutMS int) {
 	s.CrossEvery = every
 	for _, k := range []Kind{Z3, Z3New, CVC5} {
 		if k == Primary {
 			continue
 		}
-		if p, err := startProc(k, s.TimeoutMS); err == nil {
+		if p, err := startProc(k, timeoutMS); err == nil {
 			s.cross = append(s.cross, p)
 		}
 	}
@@ -339,8 +345,8 @@ func (s *Solver) Check(extra *term.Term, vars []*term.Term) (Result, map[string]
 		s.St.Unknown++
 	}
 	s.nq++
-	if s.CrossEvery > 0 && len(s.cross) > 0 && s.nq%s.CrossEvery == 0 && res != Unknown {
-		s.crossCheck(extra, res)
+	if s.SampleK > 0 && res != Unknown {
+		s.sample(extra, res)
 	}
 	return res, model
 }
@@ -437,18 +443,24 @@ func (s *Solver) crossCheck(extra *term.Term, want Result) {
 		fmt.Fprintf(&q, "(assert %s)\n", term.Ref(extra))
 	}
 	q.WriteString("(check-sat)\n")
-	for _, p := range s.cross {
+	for i, p := range s.cross {
 		p.send("(reset)\n" + p.preamble() + q.String())
 		line, err := p.readLine()
 		for err == nil && line == "" {
 			line, err = p.readLine()
 		}
 		s.St.CrossQueries++
-		if err != nil {
-			s.St.CrossDetail = append(s.St.CrossDetail, p.kind.String()+": died")
+		if err != nil || strings.Contains(line, "interrupted") {
+			// the other solver died or was stopped by its time limit: no verdict; restart it
+			s.St.CrossNoVerdict++
+			p.kill()
+			if np, e2 := startProc(p.kind, p.tmoMS); e2 == nil {
+				s.cross[i] = np
+			}
 			continue
 		}
-		if line == "unknown" || line == "timeout" || strings.Contains(line, "interrupted") {
+		if line == "unknown" || line == "timeout" {
+			s.St.CrossNoVerdict++
 			continue // no verdict from the other solver; not a disagreement
 		}
 		if line != want.String() {
@@ -456,4 +468,59 @@ func (s *Solver) crossCheck(extra *term.Term, want Result) {
 			s.St.CrossDetail = append(s.St.CrossDetail, fmt.Sprintf("%s says %q, primary says %s", p.kind, line, want))
 		}
 	}
+}
+
+// SampledQuery is a self-contained SMT-LIB2 script with the primary solver's verdict.
+type SampledQuery struct {
+	Script  string
+	Verdict Result
+}
+
+func (s *Solver) SetSampling(k int, seed int64) {
+	s.SampleK = k
+	s.sampleRng = rand.New(rand.NewSource(seed))
+}
+
+func (s *Solver) sample(extra *term.Term, res Result) {
+	n := s.nq // number of decided queries so far (1-based)
+	slot := -1
+	if len(s.Samples) < s.SampleK {
+		s.Samples = append(s.Samples, SampledQuery{})
+		slot = len(s.Samples) - 1
+	} else if j := s.sampleRng.Intn(n); j < s.SampleK {
+		slot = j
+	}
+	if slot < 0 {
+		return
+	}
+	var q strings.Builder
+	q.WriteString("(set-logic ALL)\n")
+	q.WriteString(strings.Join(s.transcript, ""))
+	if extra != nil && !extra.IsTrue() {
+		fmt.Fprintf(&q, "(assert %s)\n", term.Ref(extra))
+	}
+	q.WriteString("(check-sat)\n")
+	s.Samples[slot] = SampledQuery{Script: q.String(), Verdict: res}
+}
+
+// CrossCheck runs a script through one of the other solvers as a one-shot process with a time limit.
+// Returns "sat", "unsat" or "" (no verdict).
+func CrossCheck(kind Kind, scriptPath string, seconds int) string {
+	var cmd *exec.Cmd
+	switch kind {
+	case Z3:
+		cmd = exec.Command("/usr/bin/z3", fmt.Sprintf("-T:%d", seconds), scriptPath)
+	case Z3New:
+		cmd = exec.Command("z3-new", fmt.Sprintf("-T:%d", seconds), scriptPath)
+	default:
+		cmd = exec.Command("cvc5", fmt.Sprintf("--tlimit=%d", seconds*1000), scriptPath)
+	}
+	out, _ := cmd.CombinedOutput()
+	for _, l := range strings.Split(string(out), "\n") {
+		l = strings.TrimSpace(l)
+		if l == "sat" || l == "unsat" {
+			return l
+		}
+	}
+	return ""
 }
